@@ -230,8 +230,7 @@ class _Ctx:
         self.lemmas = []          # consequences of assumptions + pc established by the solver
         self.unwind = []          # deferred unwinding assertions: (guard that must be unsatisfiable, loop node)
         self.timeout_ms = timeout_ms
-        self.s = z3.SolverFor("QF_BV")
-        self.s.set("timeout", min(timeout_ms, 3000))
+        self.s = limit(z3.SolverFor("QF_BV"), min(timeout_ms, 3000))
         for a in assumptions:
             self.s.add(a)
         self.nq = 0
@@ -247,8 +246,7 @@ class _Ctx:
         self.nq += 1
         self.last_model = self.s.model() if r == z3.sat else None
         if r == z3.unknown and not quick:
-            s = z3.SolverFor("QF_BV")
-            s.set("timeout", self.timeout_ms)
+            s = limit(z3.SolverFor("QF_BV"), self.timeout_ms)
             s.add(*self.assumptions)
             s.add(*self.pc)
             s.add(*self.lemmas)
@@ -763,7 +761,9 @@ class Interp:
                     if self.ctx.unwind and not self._check_unwind(self.ctx):
                         self.stats["restarts"] += 1
                         continue
-                    raise NotEncodable("inconsistent path condition (no polarity of a decision is satisfiable)")
+                    # the path condition itself is unsatisfiable: no input follows this path, nothing is lost
+                    r = None
+                    break
                 ctx = self.ctx
                 for ent in ctx.memo.values():          # side conditions of memoised evaluations, under the guards of their uses
                     if ent["side"]:
@@ -796,8 +796,7 @@ class Interp:
         groups = [list(ctx.unwind)]
         while groups:
             grp = groups.pop(0)
-            s = z3.SolverFor("QF_BV")
-            s.set("timeout", self.decide_timeout_ms)
+            s = limit(z3.SolverFor("QF_BV"), self.decide_timeout_ms)
             s.add(*ctx.assumptions)
             s.add(*ctx.pc)
             s.add(z3.Or([g for g, _ in grp]))
@@ -1908,10 +1907,21 @@ def compile_mutant(fn, node):
 # ------------------------------------------------------------------------------------------------
 # obligations: reachability twin / negated property / replay
 # ------------------------------------------------------------------------------------------------
-def _solver(timeout_ms):
-    s = z3.SolverFor("QF_BV")
-    s.set("timeout", int(timeout_ms))
+RLIMIT_PER_S = 4_000_000      # z3 resource units per second of solver work on an idle core (calibrated: 3.3 - 4.2 M/s)
+WALL_FACTOR = 25              # wall-clock backstop = nominal timeout x this factor
+
+
+def limit(s, timeout_ms):
+    """Solver limits that do not depend on machine load: the nominal timeout is converted into z3's deterministic
+    resource limit (rlimit); the wall-clock timeout is only a far backstop.  The same query therefore gets the
+    same verdict on an idle and on a heavily shared machine - only the wall time differs."""
+    s.set("rlimit", int(timeout_ms / 1000.0 * RLIMIT_PER_S))
+    s.set("timeout", int(timeout_ms * WALL_FACTOR))
     return s
+
+
+def _solver(timeout_ms):
+    return limit(z3.SolverFor("QF_BV"), timeout_ms)
 
 
 def _timed(tally, s, *assumptions):
